@@ -986,12 +986,22 @@ def run(chk: lib.Check):
         "(_serialize_element) and on every spine element (_unmapped_attrs); generated trees: wrap sweep (depth 0..14 x value length "
         "0..95), root attribute shuffles / namespace subsets, every character of %r at start/middle/end/only in attribute, body and "
         "language text, random mixtures with comments around the root; oracles: parse(write(t)) succeeds, write(parse(write(t))) == "
-        "write(t), parsed tree == t (raw lxml compare), independent start-tag scanner for the wrap rule" % (TEXT_ALPHABET,))
+        "write(t), parsed tree == t (raw lxml compare), independent start-tag scanner for the wrap rule. Fragmented layouts "
+        "(coverage.fragmented_layouts): corpus models split by harness/fragmenter.py into Capella's layout (architecture layers / packages "
+        "-- one of them the only user of its namespace, so the parent file keeps that namespace for a placeholder alone -- moved to "
+        ".capellafragment files in sub-directories, names with spaces / non-ASCII / '%%', nested fragments, .airdfragment chain or direct "
+        "semanticResources); load + save by the tree under check, then on EVERY written file a raw-lxml Capella-compatibility oracle "
+        "(calibrated on all corpus files): namespaces declared on the root only, every prefix of an element name / attribute name / "
+        "xsi:type value incl. placeholders declared, nothing else declared, every URI = the one Capella's main file binds (versions agree), "
+        "80-column rule; files on disk = files before = files reachable from the .aird by what the files say = files the loader holds (no "
+        "stray, none missing); information of each file unchanged; load + save of the saved copy byte-identical; written bytes = writer "
+        "model on the parsed tree" % (TEXT_ALPHABET,))
     chk.assumptions += [
         "lxml's parser is represented by the reference reader of Model/XmlRead.v (sampled against lxml here); UTF-8 decoding is outside the reader theorem",
         "os.linesep is LF on the platform the check runs on",
         "Capella compatibility (80 columns, attribute order) has no formal specification: it is decided by the byte comparison with the 31 corpus fragments",
         "stage A only: the write/read round-trip theorem covers attribute-only trees; text, tails and comments are covered by the differential checks",
+        "fragmented models: the file shape produced by harness/fragmenter.py is what Capella writes (no fragmented model in the corpus, no Capella offline); its formatting is not Capella's, so the byte baseline for them is the first save of the tree under check (fixpoint + independent per-file oracle), not Capella's bytes. The type prefix inside a cross-fragment link value ('prefix:Type path#id') is not counted as a use of the namespace",
     ]
 
 
